@@ -143,8 +143,8 @@ func runC16(a *A) {
 			bad := ""
 			sawReturnAfterLookup := false
 			for _, o := range w.Run(ej.Blocks[0], nil) {
-				if o.Ended != "return" {
-					continue
+				if o.Ended != "return" || o.Err {
+					continue // an error return is not a join verdict
 				}
 				if o.Ret == U {
 					bad = "keep is not a constant on some path"
@@ -165,6 +165,7 @@ func runC16(a *A) {
 		}
 	})
 	a.Rule("flow/alias-default-before-use", 1, func() { a.ruleAliasDefaultBeforeUse() })
+	a.Rule("flow/table-source-resolved-per-use", 2, func() { a.ruleTableSourceResolvedPerUse() })
 	a.Rule("shape/key-order", 2, func() {
 		ej := a.Method("stream", "Stream", "enrichJoin")
 		jk := a.Method("stream", "Stream", "JoinKeyFields")
@@ -327,4 +328,185 @@ func isBoolFlagPhi(ph *ssa.Phi) bool {
 		}
 	}
 	return true
+}
+
+// ruleTableSourceResolvedPerUse: "a row processed after UpsertTable/Delete/Register returned sees the
+// new table contents" needs every use of a table to go through the one place the registrations are
+// kept. Each use of a table source in package stream (TableSource.Lookup, MemoryTableSource.Upsert /
+// Delete reached from the engine) takes its receiver from (*tableStore).get in the same activation —
+// through locals, fresh slices, helper results and parameters, never from a struct field, a package
+// variable, an atomic box or any other place that remembers a source across rows.
+func (a *A) ruleTableSourceResolvedPerUse() int {
+	get := a.Method("stream", "tableStore", "get")
+	mts := a.Named("stream", "MemoryTableSource")
+	isMts := func(t types.Type) bool {
+		if p, ok := types.Unalias(t).(*types.Pointer); ok {
+			t = p.Elem()
+		}
+		return types.Identical(types.Unalias(t), mts)
+	}
+	n := 0
+	for _, fn := range a.ModFuncs {
+		if fn.Pkg != a.Pkg("stream") || fn.Blocks == nil {
+			continue
+		}
+		if r := fn.Signature.Recv(); r != nil && isMts(r.Type()) {
+			continue // the source's own methods
+		}
+		allInstrs(fn, func(in ssa.Instruction) {
+			c, ok := in.(*ssa.Call)
+			if !ok {
+				return
+			}
+			var recv ssa.Value
+			var what string
+			if c.Call.IsInvoke() {
+				if nt, ok := c.Call.Value.Type().(*types.Named); ok && nt.Obj().Name() == "TableSource" && nt.Obj().Pkg() == fn.Pkg.Pkg && c.Call.Method.Name() == "Lookup" {
+					recv, what = c.Call.Value, "TableSource.Lookup"
+				}
+			} else if sc := c.Call.StaticCallee(); sc != nil && sc.Signature.Recv() != nil && isMts(sc.Signature.Recv().Type()) &&
+				(sc.Name() == "Upsert" || sc.Name() == "Delete" || sc.Name() == "Lookup") {
+				recv, what = c.Call.Args[0], "MemoryTableSource."+sc.Name()
+			}
+			if recv == nil {
+				return
+			}
+			n++
+			var bad []string
+			seen := map[ssa.Value]bool{}
+			var walk func(v ssa.Value, f *ssa.Function, d int)
+			storesInto := func(base ssa.Value, f *ssa.Function, d int) {
+				found := false
+				allInstrs(f, func(in ssa.Instruction) {
+					st, ok := in.(*ssa.Store)
+					if !ok {
+						return
+					}
+					addr := st.Addr
+					if ia, ok := addr.(*ssa.IndexAddr); ok {
+						addr = ia.X
+					}
+					for _, l := range phiLeaves(addr) {
+						if sl, ok := l.(*ssa.Slice); ok {
+							l = sl.X
+						}
+						if l == base {
+							found = true
+							walk(st.Val, f, d+1)
+						}
+					}
+				})
+				if !found {
+					bad = append(bad, "storage without a store at "+a.pos(base.Pos()))
+				}
+			}
+			walk = func(v ssa.Value, f *ssa.Function, d int) {
+				if v == nil || seen[v] {
+					return
+				}
+				seen[v] = true
+				if d > 12 {
+					bad = append(bad, "trace depth exceeded")
+					return
+				}
+				switch x := v.(type) {
+				case *ssa.Const:
+				case *ssa.Phi:
+					for _, e := range x.Edges {
+						walk(e, f, d+1)
+					}
+				case *ssa.MakeInterface:
+					walk(x.X, f, d+1)
+				case *ssa.ChangeInterface:
+					walk(x.X, f, d+1)
+				case *ssa.ChangeType:
+					walk(x.X, f, d+1)
+				case *ssa.TypeAssert:
+					walk(x.X, f, d+1)
+				case *ssa.Extract:
+					if cc, ok := x.Tuple.(*ssa.Call); ok {
+						if cc.Call.StaticCallee() == get {
+							return
+						}
+						a.calleeReturns(cc, x.Index, func(rv ssa.Value, rf *ssa.Function) { walk(rv, rf, d+1) }, func(why string) { bad = append(bad, why) })
+						return
+					}
+					walk(x.Tuple, f, d+1)
+				case *ssa.Call:
+					if x.Call.StaticCallee() == get {
+						return
+					}
+					a.calleeReturns(x, 0, func(rv ssa.Value, rf *ssa.Function) { walk(rv, rf, d+1) }, func(why string) { bad = append(bad, why) })
+				case *ssa.Parameter:
+					idx := -1
+					for i, p := range f.Params {
+						if p == x {
+							idx = i
+						}
+					}
+					node := a.CG().Nodes[f]
+					if node == nil || len(node.In) == 0 || idx < 0 {
+						bad = append(bad, "parameter "+x.Name()+" of "+fname(f)+" (no resolved caller)")
+						return
+					}
+					for _, e := range node.In {
+						if cc := e.Site.Common(); cc != nil && e.Caller.Func != nil {
+							args := cc.Args
+							if cc.IsInvoke() {
+								args = append([]ssa.Value{cc.Value}, args...)
+							}
+							if idx < len(args) {
+								if !a.fnInModule(e.Caller.Func) {
+									bad = append(bad, "argument from "+fname(e.Caller.Func))
+									continue
+								}
+								walk(args[idx], e.Caller.Func, d+1)
+							}
+						}
+					}
+				case *ssa.UnOp:
+					if x.Op != token.MUL {
+						bad = append(bad, x.String())
+						return
+					}
+					switch ad := x.X.(type) {
+					case *ssa.IndexAddr:
+						for _, l := range phiLeaves(ad.X) {
+							if sl, ok := l.(*ssa.Slice); ok {
+								l = sl.X
+							}
+							switch l.(type) {
+							case *ssa.MakeSlice, *ssa.Alloc:
+								storesInto(l, f, d)
+							default:
+								walk(l, f, d+1)
+							}
+						}
+					case *ssa.Alloc:
+						storesInto(ad, f, d)
+					case *ssa.FieldAddr:
+						bad = append(bad, "field "+TermOf(x, nil).String()+" read at "+a.pos(x.Pos()))
+					case *ssa.Global:
+						bad = append(bad, "package variable "+ad.Name())
+					default:
+						bad = append(bad, "load "+x.String()+" at "+a.pos(x.Pos()))
+					}
+				case *ssa.MakeSlice:
+					storesInto(x, x.Parent(), d)
+				case *ssa.Slice:
+					walk(x.X, f, d+1)
+				case *ssa.Lookup:
+					bad = append(bad, "map element "+TermOf(x.X, nil).String()+" read at "+a.pos(x.Pos()))
+				default:
+					bad = append(bad, fmt.Sprintf("%T %s at %s", v, v.String(), a.pos(v.Pos())))
+				}
+			}
+			walk(recv, fn, 0)
+			sort.Strings(bad)
+			a.Check(len(bad) == 0, fmt.Sprintf("%s->%s#source-from-store", fname(fn), what), c.Pos(),
+				"the table source used here is the result of tableStore.get in the same activation",
+				"the table source used here can come from "+strings.Join(bad, "; ")+" instead of tableStore.get: a source remembered across rows keeps answering after the table was registered again under the same name")
+		})
+	}
+	return n
 }
